@@ -130,10 +130,15 @@ func vC18Deadline(role string, wt, idle time.Duration) {
 	info := map[string]interface{}{"role": role, "write_timeout_ms": wt.Milliseconds(), "idle_ms": idle.Milliseconds(), "outcome": "ok"}
 	c := vCase{Class: "write-deadline/" + role, Sig: fmt.Sprintf("write-deadline/%s/%d/%d", role, wt.Milliseconds(), idle.Milliseconds()), Info: info}
 	slack := 50 * time.Millisecond
-	for k, pause := range []time.Duration{0, idle, idle / 3} {
+	big := make([]byte, 5<<20) // the deadline of a write is the write timeout, whatever the size of the message
+	for k, pause := range []time.Duration{0, idle, idle / 3, 0} {
 		time.Sleep(pause)
 		wctx, wcancel := context.WithTimeout(context.Background(), 3*time.Second)
-		err := write(wctx, []byte("data"))
+		msg := []byte("data")
+		if k == 3 {
+			msg = big
+		}
+		err := write(wctx, msg)
 		wcancel()
 		if err == nil {
 			select {
